@@ -235,3 +235,22 @@ var _ uuid.UUID
 //@ props C02 C04 C11 C14
 //@ assume
 //@ modifies nothing
+
+// C11 (delivery whatever the timing): the applier notifies with a non-blocking send, and the proposer is not yet receiving
+// when Propose returns; so the notification channel must have room for the one outcome it will carry.
+//@ func github.com/satori/go.uuid.NewV4
+//@ props C11 C14
+//@ assume
+//@ modifies nothing
+
+//@ func (*utils.Notificator).Create
+//@ props C11
+//@ requires [capacity] bufSize >= 1
+//@ requires [wf] this.chans != nil
+//@ ensures [registered] has(this.chans, ret1)
+//@ modifies map(this.chans)
+
+//@ func (*utils.Notificator).Remove
+//@ props C11
+//@ assume
+//@ modifies map(this.chans)
